@@ -271,4 +271,14 @@ theorem good_orig {L : List Span} {olines : List (List Char)}
     exact getOrigText_valid (hv first hfm).1 (hv last hlm).2 key
 
 
+/-- every input except the list of zero lines has at least one line for the tokenizer (a `str` always has:
+`"".split("\n") == [""]`) -/
+theorem tokLines_ne_nil (ws : Char → Bool) {inp : Input} (h : inp ≠ .lines []) : tokLines ws inp ≠ [] := by
+  cases inp with
+  | str t => simp [tokLines, splitNl_ne_nil]
+  | lines ls =>
+    intro he
+    simp only [tokLines] at he
+    exact h (by rw [he])
+
 end SrcPos
